@@ -78,6 +78,11 @@ def cases(tier, seed):
     for rs in ([256, 1000, 1024], [4096, 65536, 262144]):
         for gs in ([None, 0.5, 1], [2, 3, 7.3], [100, None, 2]):
             yield dict(kind='rfi-lin', gains=gs, res=rs)
+    # (B2) amplifier settings given explicitly, as Python numbers and as NumPy scalars of several widths (events and limits must
+    # go through the same arithmetic whatever the type of the parameters)
+    for ptype in ('float', 'f8', 'f4', 'int', 'i8', 'i4'):
+        for rs in ([256, 1000, 1024], [4096, 65536, 262144]):
+            yield dict(kind='rfi-params', ptype=ptype, res=rs)
     # (C) standard-curve lattice
     step_m, step_b = (0.01, 0.1) if tier == 'quick' else (0.005, 0.05)
     ph = ((seed * 0.37) % 1.0)
@@ -220,6 +225,30 @@ def run_case(c):
                         res.ok('rfi-lin', any(c['gains'][j] not in (None, 1) for j in sub))
                     check_empty(res, what, 'rfi-lin', d, t, lambda x: FlowCal.transform.to_rfi(x, chans), one)
             res.sample({'kind': k, 'gains': c['gains'], 'resolutions': c['res']})
+        elif k == 'rfi-params':
+            conv = {'float': float, 'f8': np.float64, 'f4': np.float32, 'int': int, 'i8': np.int64, 'i4': np.int32}[c['ptype']]
+            isint = c['ptype'] in ('int', 'i8', 'i4')
+            d = make_sample(c['res'], ['0,0'] * 3)
+            menus = [((4, 1), 2), ((3, 2), 5)] if isint else [((4, 1), 2), ((2.5, 0.1), 0.5), ((4.5, 1.0), 7.3), ((1.7, 3.0), 1.0)]
+            for (a0, a1), gain in menus:
+                for sub in subsets(3):
+                    for mode in ('log', 'lin', 'mixed'):
+                        at = [((conv(a0), conv(a1)) if (mode == 'log' or (mode == 'mixed' and i % 2 == 0)) else (conv(0), conv(0))) for i in range(len(sub))]
+                        gains = [conv(gain)] * len(sub)
+                        for rform in ('own', 'typed'):
+                            rr = [c['res'][j] for j in sub]
+                            if rform == 'typed':
+                                rr = [conv(x) if not (c['ptype'] == 'f4' and x > 2 ** 24) else x for x in rr]
+                            what = 'to_rfi(channels=%r, amplification_type=%r, amplifier_gain=%r, resolution=%r) with parameters of type %s' % (sub, at, gains, rr, c['ptype'])
+                            one = dict(c)
+                            try:
+                                t = FlowCal.transform.to_rfi(d, sub, amplification_type=at, amplifier_gain=gains, resolution=rr)
+                            except Exception as e:
+                                res.violation('rfi-params:raises:%s' % type(e).__name__, '%s raised %s: %s' % (what, type(e).__name__, e), one)
+                                continue
+                            if check_limits(res, what, 'rfi-params', d, t, sub, one, 3):
+                                res.ok('rfi-params', True)
+            res.sample({'kind': k, 'parameter type': c['ptype'], 'resolutions': c['res']})
         elif k == 'mef':
             m = c['m']
             if c['rfi'] == 'log':
